@@ -52,35 +52,10 @@ def ranges_line(r):
     return "ranges %d %d %d %s" % (ng, nc, nr, bs.hex() or "-")
 
 
-def pass_same(i, m):
-    """the model covers the layout, readRanges, the rule map and readStates, not the code loader and the rule records: what the
-    harness reports must be what the model says about the stage at which the engine stopped"""
-    if i == "later":
-        return m.startswith("ok ")
-    if i == "ranges":
-        return m.startswith("ok ") and " R:E51 " in m
-    if i == "rulemap":
-        return m.startswith("ok ") and " R:E51 " not in m and m.endswith(" M:E52")
-    if i.startswith("states "):
-        return m.startswith("ok ") and " R:E51 " not in m and " S:%s " % i.split()[1] in m and not m.endswith(" M:E52")
-    if i.startswith("ok "):
-        return m.startswith(i) and ("M:E" not in m) and " R:E" not in m and " S:E" not in m
-    return i == m
-
-
 def synth_silf_font(k):
     """the k-th synthesised base font of the Silf stage: the same bytes whatever the seed, so that a replay can make it again"""
     import random
     return fontsynth.gen_font(random.Random("c01-silf-font-%d" % k), rtl=bool(k % 2))[0]
-
-
-def silf_same(i, m):
-    """`P<i> later`: the engine refused pass i in a part the model does not cover (code loader, rule records): the model must
-    have got at least as far"""
-    if i.endswith(" later"):
-        pi = int(i.split()[0][1:])
-        return m.startswith(("ok ", "nopasses ")) or (m.startswith("P") and int(m.split()[0][1:]) > pi)
-    return i == m
 
 
 def ask(res, hp, fp, question, n):
@@ -160,7 +135,7 @@ def run(ctx):
         # collision passes allowed); the passes go on into readRanges / readRules / the code loader / readStates under ASan
         pool = passgen.pass_pool(r, lib.REPO / "tests" / "fonts", 20 if q else 200)
         hp = lib.build_harness("h_pass")
-        for bf in ("Padauk.ttf", "AwamiNastaliq-Regular.ttf"):
+        for bf in ("Padauk.ttf", "AwamiNastaliq-Regular.ttf", "charis_r_gr.ttf"):
             bfp = str(lib.REPO / "tests" / "fonts" / bf)
             cok = {}
             for pt in (1, 2, 3, 4):
@@ -168,21 +143,30 @@ def run(ctx):
                 if a is None:
                     break
                 cok[pt] = a[0]
-            if len(cok) != 4:
+            lims = ask(res, hp, bfp, "codeinfo", 4) if len(cok) == 4 else None
+            if lims is None:
                 continue
+            li = tuple(int(x) for x in lims)
+            try:
+                own = [x for x in passgen.silf_passes(sfnt.read_tables(pathlib.Path(bfp))["Silf"]) if len(x[1]) < 9000]
+            except Exception:
+                own = []                  # (a compressed Silf table)
             # first the passes that once broke something: 40000 rules with sort keys 0xFFFF (the sum of the sort keys overflowed an int)
-            pl = ["pass 0 2 %s %s" % (cok[2], passgen.build_pass([(0, 0xFFFF, b"", b"")] * 39999 + [(0, 1, b"", bytes([25, 49]))]).hex())] if bf == "Padauk.ttf" else []
-            for k in range(1500 if q else 60000):
-                sb, pb = r.choice(pool)
-                if k % 6:
-                    sb, pb = passgen.mutate_pass(r, pb, sb)
-                    if r.random() < 0.3:
-                        sb, pb = passgen.mutate_pass(r, pb, sb)
+            pl = ["pass 0 2 %s %s %s" % (cok[2], " ".join(lims), passgen.build_pass([(0, 0xFFFF, b"", b"")] * 39999 + [(0, 1, b"", bytes([25, 49]))]).hex())] if bf == "Padauk.ttf" else []
+            for k in range(1200 if q else 50000):
                 pt = r.choice([1, 2, 3, 4])
-                pl.append("pass %d %d %s %s" % (sb, pt, cok[pt], pb.hex() or "-"))
-            lib.correspond(ctx, res, "h_pass", "loader", pl, comp_holds, exe_args=[bfp], per_chunk=200, same=pass_same,
+                if k % 3 == 0:
+                    pt, sb, pb = passgen.gen_rules_pass(r, li)
+                else:
+                    sb, pb = r.choice(own) if own and k % 2 else r.choice(pool)
+                    if k % 4:
+                        sb, pb = passgen.mutate_pass(r, pb, sb)
+                        if r.random() < 0.3:
+                            sb, pb = passgen.mutate_pass(r, pb, sb)
+                pl.append("pass %d %d %s %s %s" % (sb, pt, cok[pt], " ".join(lims), pb.hex() or "-"))
+            lib.correspond(ctx, res, "h_pass", "loader", pl, comp_holds, exe_args=[bfp], per_chunk=200,
                            classify=lambda l, i: "pass:" + ("fault" if i.startswith(("fault", "CRASH")) else i.split()[0]),
-                           rule="Pass::readPass: %d passes of shipped and synthesised fonts, intact and mutated, loaded with the Silf/Face of %s; the layout result (error code or the header numbers) must be the model's; what follows the layout runs under ASan" % (len(pool), bf))
+                           rule="Pass::readPass, all of it: passes of shipped and synthesised fonts (the font's own and others'), intact and mutated, and passes built from generated rule records and code with a sort key, a pre-context, a code offset, the pre-context bounds or a rule-map entry changed, loaded with the Silf/Face of %s; the verdict (the loader's error code, or the header numbers, columns, state tables and per rule its lengths and the sizes of its two programs) must be the model's" % bf)
         # Silf::readClassMap on well-formed and mutated class maps (both offset widths), then getClassGlyph / findClassIndex on
         # the accepted ones for classes below and above the class count
         cl = []
@@ -206,24 +190,24 @@ def run(ctx):
             if an:
                 spool.append((str(fp), st, an))
         for fp, st, an in spool:
-            a = ask(res, hp, fp, "faceinfo", 3)
+            a = ask(res, hp, fp, "faceinfo", 4)
             if a is None:
                 continue
-            ng, na, hb = a
+            ng, na, hb, nf = a
             n = (40 if q else 400) if len(st) > 40000 else (250 if q else 6000)
             hl2 = []
             for k in range(n):
                 t = st if k == 0 else passgen.mutate_silf(r, st, an)
                 if k % 2 == 0:
-                    hl2.append("silftable %s %s %s %s" % (ng, na, hb, t.hex() or "-"))
+                    hl2.append("silftable %s %s %s %s %s" % (ng, na, hb, nf, t.hex() or "-"))
                 else:
                     off, end = an["subs"][0]
                     sub = t[off:end] if r.random() < 0.8 else t[off: off + r.randrange(0, 80)]
                     v = int.from_bytes(t[0:4], "big") if len(t) >= 4 else 0x00020000
-                    hl2.append("silf %d %s %s %s %s" % (v, ng, na, hb, sub.hex() or "-"))
-            lib.correspond(ctx, res, "h_pass", "loader", hl2, comp_holds, exe_args=[fp], per_chunk=100, same=silf_same,
+                    hl2.append("silf %d %s %s %s %s %s" % (v, ng, na, hb, nf, sub.hex() or "-"))
+            lib.correspond(ctx, res, "h_pass", "loader", hl2, comp_holds, exe_args=[fp], per_chunk=100,
                            classify=lambda l, i: l.split()[0] + ":" + ("fault" if i.startswith(("fault", "CRASH")) else " ".join(x for x in i.split()[:2] if not x[:1].isdigit())),
-                           rule="Face::readGraphite / Silf::readGraphite: the Silf table of %s (%d bytes), intact and mutated; the verdict (error code, pass number, or the numbers of the accepted sub-tables) must be the model's; the passes go on into the code loader under ASan" % (pathlib.Path(fp).name, len(st)))
+                           rule="Face::readGraphite / Silf::readGraphite: the Silf table of %s (%d bytes), intact and mutated; the verdict (the loader's error code from whichever part of the table, sub-table, class map, pass, rule record or bytecode gave it, or the numbers of the accepted sub-tables) must be the model's" % (pathlib.Path(fp).name, len(st)))
         # the code loader: Machine::Code's loading constructor on the constraint and action code of shipped fonts (intact and with a
         # byte changed) and on generated programs that mostly pass its tests, with boundary operands, truncations and unknown opcodes
         for bf in ("Padauk.ttf", "charis_r_gr.ttf", "general.ttf"):
@@ -354,9 +338,7 @@ def replay(ctx, obj):
                         fp = scratch / ("silf-synth-%s.ttf" % mm.group(1))
                         fp.write_bytes(synth_silf_font(int(mm.group(1))))
                         it["exe_args"] = [str(fp)]
-            silf = any(it.get("line", "").startswith("silf") for it in items)
-            hpass = any(it.get("harness") == "h_pass" for it in items)
-            return lib.replay_lines(ctx, obj, {"loader": comp_holds}, same=silf_same if silf else (pass_same if hpass else None))
+            return lib.replay_lines(ctx, obj, {"loader": comp_holds})
         finally:
             shutil.rmtree(scratch, ignore_errors=True)
     print(str(obj)[:2000])
